@@ -129,6 +129,99 @@ pub fn run(env: &Env) -> Rec {
         }
     });
     rec.exhaustive("all 1,114,112 code points 0..=0x10FFFF x 2 classes x 2 entry points, vs IANA registry and vs independent recomputation");
+    // the same table in other lookup orders: descending, and random jumps with the neighbours c-1 / c+1 looked
+    // up right before (a cache of the last range or result, shared between classes or entry points, shows here)
+    let quick_val = |class: Class, cp: u32, rec: &mut Rec, how: &str| {
+        let lib = api::class_value_cp(class, cp);
+        rec.eval();
+        let a = csv[cp as usize];
+        let w = if class == Class::Identifier { a.identifier() } else { a.freeform() };
+        if lib != Out::Ok(w) {
+            rec.violation(
+                "derived-property-depends-on-lookup-order",
+                Witness { op: format!("{:?}.get_value_from_codepoint ({})", class, how), case: format!("cp={:X}", cp), expected: format!("{:?}", w), observed: api::show(&lib) },
+            );
+        }
+    };
+    let rdesc = par(n_chunks, |i, rec| {
+        for cp in ((i * chunk) as u32..((i + 1) * chunk) as u32).rev() {
+            quick_val(Class::Freeform, cp, rec, "descending");
+            if let Some(ch) = char::from_u32(cp) {
+                let l = api::class_value_char(Class::Identifier, ch);
+                rec.eval();
+                if l != Out::Ok(csv[cp as usize].identifier()) {
+                    rec.violation(
+                        "derived-property-depends-on-lookup-order",
+                        Witness { op: "Identifier.get_value_from_char (descending, after Freeform code point lookup)".into(), case: format!("cp={:X}", cp), expected: format!("{:?}", csv[cp as usize].identifier()), observed: api::show(&l) },
+                    );
+                }
+            }
+        }
+    });
+    rec.merge(rdesc);
+    // aliases: right after cp, the values that agree with it modulo 2^21 / 2^24 / 2^28 / 2^31 (all above
+    // U+10FFFF, never valid), then cp again (a memo with a truncated key shows here)
+    let ralias = par(n_chunks, |i, rec| {
+        for cp in ((i * chunk) as u32..((i + 1) * chunk) as u32).filter(|c| c % 3 == (env.seed % 3) as u32 || *c < 0x3000) {
+            for class in api::ALL_CLASS {
+                quick_val(class, cp, rec, "before alias");
+                for sh in [21u32, 24, 28, 31] {
+                    let a = cp | (1u32 << sh) | if sh < 31 { (cp & 1) << (sh + 1) } else { 0 };
+                    let lib = api::class_value_cp(class, a);
+                    rec.eval();
+                    if a as usize >= NCP && !matches!(lib, Out::Ok(Dp::Disallowed) | Out::Ok(Dp::Unassigned)) {
+                        rec.violation(
+                            "derived-property-depends-on-lookup-order",
+                            Witness { op: format!("{:?}.get_value_from_codepoint right after its alias U+{:04X}", class, cp), case: format!("cp={:X}", a), expected: "Disallowed or Unassigned (not a code point)".into(), observed: api::show(&lib) },
+                        );
+                    }
+                    quick_val(class, cp, rec, "after alias");
+                }
+            }
+        }
+    });
+    rec.merge(ralias);
+    // concurrent hammer: all threads resolve the same few code points, whose answers alternate, at the same time
+    let hammer: Vec<u32> = vec![0xAA, 0x3B1, 0xB5, 0x61, 0x2163, 0x4E00, 0xFF21, 0x20, 0xBA, 0xE9, 0x1F600, 0x378, 0x200D, 0xA0, 0x41, 0x13A0];
+    let rounds = env.n(150_000, 3_000_000);
+    let rh = par(crate::util::n_threads().max(8), |t, rec| {
+        let mut k = t;
+        for _ in 0..rounds {
+            k = (k * 7 + 3) % hammer.len();
+            let cp = hammer[k];
+            let class = if k % 2 == 0 { Class::Identifier } else { Class::Freeform };
+            let lib = api::class_value_cp(class, cp);
+            let a = csv[cp as usize];
+            let w = if class == Class::Identifier { a.identifier() } else { a.freeform() };
+            if lib != Out::Ok(w) {
+                rec.violation(
+                    "derived-property-depends-on-concurrent-callers",
+                    Witness { op: format!("{:?}.get_value_from_codepoint from {} threads at once", class, crate::util::n_threads()), case: format!("cp={:X}", cp), expected: format!("{:?}", w), observed: api::show(&lib) },
+                );
+            }
+        }
+        rec.evals(rounds as u64);
+        rec.nontrivial("concurrent-hammer-thread", &("hammer", t), || format!("thread {} x {} lookups over {} code points", t, rounds, hammer.len()));
+    });
+    rec.merge(rh);
+    let n_jump = env.n(3_000_000, 100_000_000);
+    let rj = par(n_jump / 50_000, |i, rec| {
+        let mut rng = Rng::stream(env.seed, 0x14_8000 + i as u64);
+        for _ in 0..50_000 {
+            let cp = rng.below(NCP) as u32;
+            let nb = match rng.below(4) {
+                0 => cp.saturating_sub(1),
+                1 => (cp + 1).min(NCP as u32 - 1),
+                2 => cp ^ 0x10000,
+                _ => rng.below(NCP) as u32,
+            } % NCP as u32;
+            let (c1, c2) = if rng.chance(1, 2) { (Class::Identifier, Class::Freeform) } else { (Class::Freeform, Class::Identifier) };
+            quick_val(c1, nb, rec, "random jump, neighbour first");
+            quick_val(c2, cp, rec, "random jump");
+            quick_val(c1, cp, rec, "random jump, other class");
+        }
+    });
+    rec.merge(rj);
     // above the code space: boundaries + random
     let mut bounds: Vec<u32> = vec![0x110000, 0x110001, 0x1FFFFF, 0x200000, 0x7FFFFFFF, 0x80000000, 0xFFFFFFFE, 0xFFFFFFFF];
     for sh in 21..32 {
